@@ -18,6 +18,7 @@ import CBV.Lemmas.C03Hist
 import CBV.Lemmas.C03Guards
 import CBV.Lemmas.C03Trans
 import CBV.Lemmas.C03Rev
+import CBV.Lemmas.C03CalcGen
 import CBV.Gen.TC03
 
 namespace CBV.C03
@@ -1395,6 +1396,30 @@ example : (solverFn (relEnv ⟨.c2c, .count, .start⟩ 1 3 (1 / 7)) body_c2c_cou
     (solverFn (relEnv ⟨.c2c, .count, .start⟩ 1 3 (1 / 7)) body_c2c_count_start 3).toOption = some 6 ∧
     (solverFn (relEnv ⟨.c2c, .count, .end_⟩ 1 3 (4 / 7)) body_c2c_count_end 2).toOption = some 0 ∧
     rootOK 0 (1 / 7) 2 1 3 = true ∧ rootOK 0 (1 / 7) 3 1 3 = false := by decide +kernel
+
+/-- `Chop.calculate` interpreted statement by statement from the source as it is now.  `cbv/tables/c03.py` matches every
+    statement of the method (all non-`None` fields start as known; `for _ in range(N)`: first the completeness test on the
+    key set with `return data["count"], data["total_expansion"]`, then one pass over
+    `ChopRelation.get_possible_combinations()` — skip when the output is known, call
+    `function(length, data[input_1], data[input_2])` when both inputs are known and mark the output known; `raise` after the
+    loop) and emits its constants; `calcGen` runs that loop as the source does — the set `calculated` and the dictionary
+    `data` move together, a relation that raises aborts — on the generated relation table.  For every chop, edge length,
+    tolerance and solver answers it is the model's `calculate` (which first plans on the names, then makes the calls):
+    planning ahead and running interleaved are the same thing. -/
+theorem T_C03_translated_calculate (t : Tol) (L : ℚ) (o : Oracle) (v : Vals) :
+    calcGen CBV.Gen.c03CalcLoop t L o v = some (calculate t L o v) :=
+  calcGen_eq t L o v
+
+/-- the interpretation computes, and reacts to its table: one round is not enough for (count, start size), an argument
+    order other than `(length, input_1, input_2)` or another returned pair is refused -/
+example :
+    (calcGen CBV.Gen.c03CalcLoop T0 1 { c2c := some 2 } { count := some 3, start := some (1 / 7) }).map returned =
+      some (some (some 3, some 4)) ∧
+    (calcGen (1, ["c2c_expansion", "count", "end_size", "start_size", "total_expansion"], ("count", "total_expansion"),
+        ("length", "input_1", "input_2")) T0 1 { c2c := some 2 } { count := some 3, start := some (1 / 7) }).map returned =
+      some none ∧
+    calcGen (12, ["c2c_expansion", "count", "end_size", "start_size", "total_expansion"], ("count", "total_expansion"),
+        ("length", "input_2", "input_1")) T0 1 {} { count := some 3 } = none := by decide +kernel
 
 /-- `Chop.__post_init__` interpreted from the source as it is now (`cbv/tables/c03.py` reads the list of counted
     attributes, the threshold of `len(params) - params.count(None) < 2`, the defaulted attribute with its value and the
